@@ -86,7 +86,7 @@ Progress == <>Done
 NoViolation == st.viol = {}
 
 MkCfg(rwnd, thr, ac, dg, bc, rt) ==
-  [rwnd |-> rwnd, thr |-> thr, acceptCap |-> ac, dgCap |-> dg, bindCap |-> bc, retries |-> rt]
+  [rwnd |-> rwnd, thr |-> thr, acceptCap |-> ac, dgCap |-> dg, bindCap |-> bc, retries |-> rt, kaI |-> 0, kaT |-> 0]
 LiveCfgs  == {MkCfg(r, t, 1, 1, 0, 1) : r \in 1..3, t \in 1..4}
 LiveCfgsQ == {MkCfg(r, t, 1, 1, 0, 1) : r \in 1..2, t \in 1..3}
 LiveCfgsT == {MkCfg(r, t, 1, 1, 0, 1) : r \in 1..2, t \in 1..2}
